@@ -272,6 +272,10 @@ where
 
 struct DualAveraging;
 impl Scenario for DualAveraging {
+    fn recheckable(&self, p: &Value) -> bool {
+        // f32 gradients of the NdArray backend are not repeatable bit for bit (see Scenario::recheckable)
+        ps(p, "float") != "f32"
+    }
     fn name(&self) -> &'static str {
         "dual_averaging_histories"
     }
